@@ -486,6 +486,33 @@ def _struct_writes(node, fields):
     return out
 
 
+FIELD_MESSAGES = {
+    '_components': ('DataRemoveComponentMessage', 'DataAddComponentMessage', 'DataReorderComponentMessage', 'ComponentReplacedMessage'),
+    '_subsets': ('SubsetCreateMessage', 'SubsetDeleteMessage'),
+    '_data': ('DataCollectionAddMessage', 'DataCollectionDeleteMessage'),
+}
+
+
+def self_announcing(fnode, write, fld):
+    """A writer outside the table that announces the very element it changes itself: after the write, the same function builds
+    one of the messages of that structure with the written key / element among its arguments and broadcasts."""
+    key = None
+    if isinstance(write, ast.Call) and write.args:
+        key = unparse(write.args[0])
+    elif isinstance(write, ast.Delete) and write.targets and isinstance(write.targets[0], ast.Subscript):
+        key = unparse(write.targets[0].slice)
+    elif isinstance(write, ast.Assign) and isinstance(write.targets[0], ast.Subscript):
+        key = unparse(write.targets[0].slice)
+    if key is None:
+        return False
+    casts = any(isinstance(c, ast.Call) and call_name(c) == 'broadcast' for c in ast.walk(fnode))
+    for c in ast.walk(fnode):
+        if isinstance(c, ast.Call) and call_name(c) in FIELD_MESSAGES.get(fld, ()) and getattr(c, 'lineno', 0) >= getattr(write, 'lineno', 0) \
+                and any(unparse(a) == key for a in c.args):
+            return casts
+    return False
+
+
 def rule_h(ctx, ix):
     """Only the announcing mutators (and the constructors) write the structures whose changes are announced."""
     R = 'C17.h'
@@ -514,7 +541,7 @@ def rule_h(ctx, ix):
                             continue
                     seen[fld] += 1
                     top = '%s:%s' % (mod.name, '.'.join((stack + [ch.name])[:2] if stack else [ch.name]))
-                    ok = construct in allowed or top in allowed
+                    ok = construct in allowed or top in allowed or self_announcing(ch, n, fld)
                     ctx.ob(R, '%s `%s`' % (construct, norm(n) if isinstance(n, ast.stmt) else unparse(n)),
                            'the structure %s is written only where the change is announced' % fld, ok,
                            detail='%s changes %s.%s with `%s` but is not one of the announcing mutators %s: the structural change '
